@@ -85,7 +85,7 @@ theorem coords_step {cfg : Cfg} {g : GridB} (hi : Inv cfg g) (op : Op) (hv : op.
       | .new x _ => if has g.cells x then g.cells.map (·.coord) else g.cells.map (·.coord) ++ [x]
       | .rm x => (g.cells.map (·.coord)).filter (fun y => !(y == x))
       | .upd _ _ => g.cells.map (·.coord)
-      | .updAll _ => (step cfg g op).cells.map (·.coord)
+      | .updAll _ => g.cells.map (·.coord)
       | .clear => [] := by
   cases op with
   | new x d =>
@@ -105,7 +105,7 @@ theorem coords_step {cfg : Cfg} {g : GridB} (hi : Inv cfg g) (op : Op) (hv : op.
       have hne : y ≠ x := by rintro rfl; exact h this
       simpa using hne
   | upd x d => exact coords_update cfg g x d
-  | updAll chg => rfl
+  | updAll chg => exact map_coord_of_strip (updateAll_cells_strip (cfg := cfg) chg hi.nodup)
   | clear => rfl
 
 /-! ### tops are present cells -/
@@ -233,7 +233,8 @@ def TopsBest (cfg : Cfg) (g : GridB) : Prop :=
            ((∀ c' ∈ g.cells, c'.border = false) ∧ c.border = false ∧
               ∀ c' ∈ g.cells, c'.border = false → cfg.ltI c'.data c.data = false)))
 
-theorem tops_best_of_inv {cfg : Cfg} {g : GridB} (ok : CmpOK cfg) (hi : Inv cfg g) (ho : Ordered cfg g) :
+/-- only the queue part of the invariant is used: it also holds while a created cell is pending (Proofs/GridSplit) -/
+theorem tops_best_of_base {cfg : Cfg} {g : GridB} (ok : CmpOK cfg) (hi : Base cfg g) (ho : Ordered cfg g) :
     TopsBest cfg g := by
   unfold TopsBest
   obtain ⟨hEn, hEs⟩ := top_best_side (lt := cfg.ltE) hi.ext ok.kE ho.1
@@ -270,5 +271,8 @@ theorem tops_best_of_inv {cfg : Cfg} {g : GridB} (ok : CmpOK cfg) (hi : Inv cfg 
         obtain ⟨c, hc, hp, hid, hbest⟩ := hIs e hI
         exact ⟨c, hc, hid, Or.inr ⟨hall, by simpa using hp, fun c' hc' hb' => hbest c' hc' (by simp [hb'])⟩⟩
       | none => exact hnil hall (hIn hI)
+
+theorem tops_best_of_inv {cfg : Cfg} {g : GridB} (ok : CmpOK cfg) (hi : Inv cfg g) (ho : Ordered cfg g) :
+    TopsBest cfg g := tops_best_of_base ok hi.toBase ho
 
 end OmplModel.Grid
